@@ -227,6 +227,79 @@ where
       rw [mem_insertSorted, ih]
       simp [eq_comm]
 
+/-! ## Dominance: the reference `domRefGen` against the path definition -/
+
+/-- A path (zero or more arcs of `succ`, inside the level) from `e` to `x` that never touches `a`. -/
+inductive PathAvoid (lvl : List Blk) (succ : Name → List Name) (a : Name) : Name → Name → Prop
+  | refl {e : Name} : e ≠ a → PathAvoid lvl succ a e e
+  | step {e m x : Name} : PathAvoid lvl succ a e m → x ∈ succAvoid lvl succ a m →
+      PathAvoid lvl succ a e x
+
+theorem mem_foldl_avoid (lvl : List Blk) (succ : Name → List Name) (a : Name) (s init : List Name)
+    (x : Name) :
+    x ∈ s.foldl (fun acc v => acc ++ succAvoid lvl succ a v) init ↔
+      x ∈ init ∨ ∃ v ∈ s, x ∈ succAvoid lvl succ a v := by
+  induction s generalizing init with
+  | nil => simp
+  | cons v vs ih =>
+    simp only [List.foldl_cons, ih, List.mem_append, List.mem_cons]
+    constructor
+    · rintro ((h | h) | ⟨w, hw, hx⟩)
+      · exact Or.inl h
+      · exact Or.inr ⟨v, Or.inl rfl, h⟩
+      · exact Or.inr ⟨w, Or.inr hw, hx⟩
+    · rintro (h | ⟨w, hw | hw, hx⟩)
+      · exact Or.inl (Or.inl h)
+      · exact Or.inl (Or.inr (hw ▸ hx))
+      · exact Or.inr ⟨w, hw, hx⟩
+
+/-- everything the closure collects is reached from an entry by a path avoiding `a` -/
+theorem reachAvoid_sound (lvl : List Blk) (succ : Name → List Name) (entries : List Name)
+    (a x : Name) (h : x ∈ reachAvoid lvl succ entries a) :
+    ∃ e ∈ entries, PathAvoid lvl succ a e x := by
+  unfold reachAvoid at h
+  have key : ∀ (n : Nat) (s : List Name), (∀ y ∈ s, ∃ e ∈ entries, PathAvoid lvl succ a e y) →
+      ∀ y ∈ iter (fun s => dedup (s ++ s.foldl (fun acc v => acc ++ succAvoid lvl succ a v) [])) n s,
+        ∃ e ∈ entries, PathAvoid lvl succ a e y := by
+    intro n
+    induction n with
+    | zero => intro s hs y hy; exact hs y hy
+    | succ n ih =>
+      intro s hs y hy
+      simp only [iter] at hy
+      refine ih _ ?_ y hy
+      intro z hz
+      rw [mem_dedup, List.mem_append, mem_foldl_avoid] at hz
+      rcases hz with h1 | h1 | ⟨v, hv, hzv⟩
+      · exact hs z h1
+      · simp at h1
+      · obtain ⟨e, he, hp⟩ := hs v hv
+        exact ⟨e, he, PathAvoid.step hp hzv⟩
+  refine key _ _ ?_ x h
+  intro y hy
+  obtain ⟨hy1, hy2⟩ := List.mem_filter.mp hy
+  exact ⟨y, hy1, PathAvoid.refl (by simpa using hy2)⟩
+
+/-- **Dominance, one direction, all graphs.** When the reference says `a` does *not* dominate
+    `b`, there is a genuine path from an entry to `b` that avoids `a` — so whenever every
+    entry-to-`b` path passes `a`, the reference (and, by the exhaustive comparison, `_doms` /
+    `_post_doms`) says "dominates". -/
+theorem domRef_false_witness (lvl : List Blk) (succ : Name → List Name) (entries : List Name)
+    (a b : Name) (h : domRefGen lvl succ entries a b = false) :
+    a ≠ b ∧ ∃ e ∈ entries, PathAvoid lvl succ a e b := by
+  simp only [domRefGen, Bool.or_eq_false_iff, beq_eq_false_iff_ne, Bool.not_eq_false',
+    List.contains_iff_mem] at h
+  exact ⟨h.1, reachAvoid_sound lvl succ entries a b (by simpa using h.2)⟩
+
+theorem dominates_of_all_paths (lvl : List Blk) (succ : Name → List Name) (entries : List Name)
+    (a b : Name) (hall : ∀ e ∈ entries, ¬ PathAvoid lvl succ a e b) :
+    domRefGen lvl succ entries a b = true := by
+  cases h : domRefGen lvl succ entries a b with
+  | true => rfl
+  | false =>
+    obtain ⟨_, e, he, hp⟩ := domRef_false_witness lvl succ entries a b h
+    exact absurd hp (hall e he)
+
 /-! ## The model of `is_reachable_dfs` itself (partial correctness, all graphs) -/
 
 /-- reachability w.r.t. an arbitrary successor function -/
